@@ -78,6 +78,8 @@ def _case_strings(case):
             C.spec_idents(case)
     if kind == 'names':
         return list(case['names'].values()) + [case['data']['s'], case['data']['s2']]
+    if kind == 'history':
+        return [v for v in C.history_values(case) if isinstance(v, str)]
     return []
 
 
@@ -93,6 +95,8 @@ def _nontrivial(case):
         return len(keys) != len(set(keys)) or any(e[0] == 'comp' for e in order) or any(C.is_special_text(s) for s in _case_strings(case))
     if kind == 'names':
         return any(C.is_special_text(s) for s in case['names'].values())
+    if kind == 'history':
+        return C.history_reorders(case) or any(C.is_special_value(v) for v in C.history_values(case))
     return False
 
 
@@ -119,6 +123,11 @@ def evaluate(case):
             case = dict(case, names={k: v for k, v in case['names'].items() if k != 'schema'})    # no schemas on SQLite
         status, fails, info = C.judge_names(case)
         return status, [(t, m, {}) for (t, m) in fails], info
+    if kind == 'history':
+        if case['dialect'] == 'oracle' and any(v == '' for v in C.history_values(case)):
+            return 'skipped', [], {}          # '' is NULL in Oracle
+        status, fails, info = C.judge_history(case)
+        return status, [(t, m, {}) for (t, m) in fails], info
     raise ValueError(kind)
 
 
@@ -141,6 +150,10 @@ def _one(ctx, case):
             classes.append('query:with-params')
         if case['dialect'] == 'sqlite' and case.get('rows'):
             classes.append('query:live')
+    if case['kind'] == 'history':
+        classes += sorted(set('hist:' + op[0] for op in case['ops']))
+        if C.history_reorders(case):
+            classes.append('hist:same-columns-other-order')
     sample = None
     seen = ctx.__dict__.setdefault('_c06_samples_by_kind', {})
     if nt and seen.get(case['kind'], 0) < (1 if case['kind'] == 'value' else 2) and len(ctx.samples) < 6 \
@@ -153,6 +166,8 @@ def _one(ctx, case):
             sample.update(names=case['names'], statements=info.get('statements'))
         elif case['kind'] == 'ast':
             sample.update(stmt=case['stmt'], values=case['values'])
+        elif case['kind'] == 'history':
+            sample.update(ops=[C._op_show(op) for op in case['ops']])
         else:
             sample.update(style=case['style'], v=case['v'])
     ctx.case(key=case, nontrivial=nt, classes=classes, sample=sample)
@@ -201,6 +216,12 @@ def run(ctx):
             _one(ctx, dict(case, dialect=dialect))
     if ctx.violation is None:
         ctx.run_test(t_names, {'case': G.names_case()}, max_examples=n(90, 450), name='names')
+
+    def t_history(case):
+        for dialect in C.QUERY_DIALECTS:
+            _one(ctx, dict(case, dialect=dialect))
+    if ctx.violation is None:
+        ctx.run_test(t_history, {'case': G.history_case()}, max_examples=n(120, 600), name='histories')
 
 
 def replay(case):
